@@ -93,8 +93,6 @@ def nks_for(prop: str, tier: str, rule: str, member) -> list[tuple[int, int]]:
 
 
 def modes_for(prop: str, tier: str, seed: int, member) -> list[str]:
-    if prop == "C03":
-        return ["I"]
     if prop == "C02":
         modes = ["I", "IO", "G", "GO"] + [f"IO:{i}" for i in range(5)] + ["IO:4,3,2,1,0", "IO:4,3", "GO:4,3"]
         if tier == "thorough":
